@@ -183,6 +183,39 @@ def check(index, ctx):
                         f"first .grad write at {first['loc']} (on {first['target']}) happens before the expects-grad check of {missing} has completed: a tensor that is neither a leaf requiring grad "
                         f"nor retaining grad, listed in {missing}, makes the call raise ValueError after other .grad fields were modified", first["loc"],
                         derivation={"written": targets, "validated_before_first_write": sorted(covered)})
+    # R5: the emptiness of the differentiated collections is settled before the first write, in every argument form
+    ctx.rule("R5", "before the first .grad write of a call, a test has established that `tensors` (backward) / `features` and `losses` (mtl_backward) are non-empty — in every "
+                   "argument form (explicit and defaulted parameter lists): an empty collection is refused up front, not by whatever fails first downstream")
+    for run in rs:
+        need = ["tensors"] if run.entry == "backward" else ["features", "losses"]
+        if "single Tensor" in run.label or run.variant.get("single"):
+            need = [a for a in need if a == "losses"]  # one tensor given directly: a list of one element, nothing to test
+        miss_: dict = {}
+        n_w = 0
+        for res in run.results:
+            gw = _pipe.evs(res, "grad_write")
+            if not gw:
+                continue
+            n_w += 1
+            first = min(e["seq"] for e in gw)
+            idx_first = next(i for i, e in enumerate(res.events) if e["kind"] == "grad_write" and e.get("seq") == first)
+            settled = set()
+            for e in res.events[:idx_first]:
+                if e["kind"] == "decision" and (e.get("key") or "").startswith("nonempty?") and e.get("outcome") is not None:
+                    if bool(e["outcome"]) ^ bool(e.get("key_neg")):
+                        settled |= set((e["key"][len("nonempty?"):]).split("+"))
+            alias = {"losses": {"losses", "tasks", "losses[i]"}}  # (the list of losses is walked per task: its atom is `tasks`)
+            for a in need:
+                if not (alias.get(a, {a}) & settled):
+                    miss_.setdefault(a, res)
+        if not n_w:
+            continue
+        for a in need:
+            res = miss_.get(a)
+            ctx.require(res is None, "R5", f"{run.label}: `{a}` is known to be non-empty before the first .grad write" if res is None else f"{run.entry}: an empty `{a}` is not refused before .grad is written",
+                        "a test on its emptiness precedes the first write on every writing path",
+                        (f"on path [{res.describe_path()[-110:]}] of {run.label} no test has established that `{a}` is non-empty when the first .grad write happens: with an empty `{a}` "
+                         "the call is not rejected up front — it fails later (or not at all), after .grad fields were modified") if res is not None else "", "")
     chunk_validator_rule(index, ctx)
     ctx.extra["rejection_inventory"] = inventory
     ctx.floor("argument-rejection paths inspected", n_rej, 30)
